@@ -10,7 +10,7 @@
    name).  No proofs in this file. *)
 From Coq Require Import List Bool NArith.
 Import ListNotations.
-From JS Require Import Model.Base Model.Shape Model.Sem Model.Infer Model.Lexer.
+From JS Require Import Model.Base Model.Shape Model.Sem Model.Infer Model.Lexer Model.Unescape.
 Local Open Scope N_scope.
 
 (* ---------- RFC 8259 section 2: ws = *( %x20 / %x09 / %x0A / %x0D ) ---------- *)
@@ -65,7 +65,8 @@ Inductive str_chars : list char -> Prop :=       (* *char *)
 Inductive string_lit : list char -> list char -> Prop :=
 | string_intro : forall body, str_chars body -> string_lit (34 :: body ++ [34]) body.
 
-Definition raw_key (body : list char) : key := utf8_encode body.
+(* the member name a string body denotes: escapes decoded (Model/Unescape.v) *)
+Definition raw_key (body : list char) : key := utf8_encode (name_chars body).
 
 (* ---------- sections 3-5: values, arrays, objects ----------
    begin-array = ws [ ws, value-separator = ws , ws, name-separator = ws : ws, ... *)
